@@ -203,6 +203,66 @@ Fixpoint tiff_inverse_from (colors : N) (todo acc : bytes) (i : N) : bytes :=
   | d :: r => tiff_inverse_from colors r (acc ++ [(d + (if i <? colors then 0 else nthN acc (i - colors))) mod 256]) (i + 1)
   end.
 
+(** ** TIFF predictor 2 for every sample size (TIFF 6.0 §14, ISO 32000-1 §7.4.4.4, Table 8):
+    BitsPerComponent 1, 2, 4, 8, 16; a row is Columns * Colors samples packed most significant
+    bit first (a 16-bit sample is two bytes, high byte first), padded with zero bits to a byte
+    boundary; every sample is replaced by its difference, modulo 2^bpc, to the sample of the same
+    colour component of the pixel on its left; the first pixel of a row is unchanged. *)
+(** [n] digits of [v] in base [base], most significant first, and back *)
+Fixpoint tiff_digits (base : N) (n : nat) (v : N) : list N :=
+  match n with O => [] | S k => tiff_digits base k (v / base) ++ [v mod base] end.
+Definition tiff_undigits (base : N) (ds : list N) : N := fold_left (fun acc d => acc * base + d) ds 0.
+(** consecutive groups of [per] elements, the last one possibly shorter *)
+Fixpoint tiff_groups (fuel per : nat) (l : list N) : list (list N) :=
+  match fuel with
+  | O => []
+  | S f => match l with [] => [] | _ => firstn per l :: tiff_groups f per (skipn per l) end
+  end.
+Fixpoint be16_samples (row : bytes) : list N :=
+  match row with hi :: lo :: r => (256 * hi + lo) :: be16_samples r | _ => [] end.
+
+(** the first [n] samples of a row *)
+Definition tiff_samples (bpc : N) (n : nat) (row : bytes) : list N :=
+  if bpc =? 16 then be16_samples row
+  else firstn n (flat_map (tiff_digits (2 ^ bpc) (N.to_nat (8 / bpc))) row).
+(** samples to row bytes, zero padding *)
+Definition tiff_pack (bpc : N) (ss : list N) : bytes :=
+  if bpc =? 16 then flat_map (fun v => [v / 256; v mod 256]) ss
+  else let per := N.to_nat (8 / bpc) in
+       map (fun g => tiff_undigits (2 ^ bpc) (g ++ repeat 0 (per - length g))) (tiff_groups (length ss) per ss).
+
+Fixpoint tiff_diff_from (M colors : N) (orig todo : list N) (i : N) : list N :=
+  match todo with
+  | [] => []
+  | x :: r => ((x + M - (if i <? colors then 0 else nthN orig (i - colors)) mod M) mod M)
+                :: tiff_diff_from M colors orig r (i + 1)
+  end.
+Definition tiff_forward_row (bpc colors : N) (n : nat) (row : bytes) : bytes :=
+  let s := tiff_samples bpc n row in tiff_pack bpc (tiff_diff_from (2 ^ bpc) colors s s 0).
+(** [rows] rows of [row_bytes] bytes holding [n] = Columns * Colors samples each *)
+Fixpoint tiff_forward (rows : nat) (bpc colors : N) (n row_bytes : nat) (x : bytes) : bytes :=
+  match rows with
+  | O => []
+  | S k => tiff_forward_row bpc colors n (firstn row_bytes x)
+           ++ tiff_forward k bpc colors n row_bytes (skipn row_bytes x)
+  end.
+(** a row is canonical when it is the packing of its own samples: right length, padding bits zero
+    (always so for 8 and 16 bits, and whenever Columns * Colors * bpc is a multiple of 8) *)
+Definition tiff_canonical (bpc : N) (n : nat) (row : bytes) : Prop :=
+  tiff_pack bpc (tiff_samples bpc n row) = row.
+Fixpoint tiff_canonical_rows (rows : nat) (bpc : N) (n row_bytes : nat) (x : bytes) : Prop :=
+  match rows with
+  | O => True
+  | S k => tiff_canonical bpc n (firstn row_bytes x) /\ tiff_canonical_rows k bpc n row_bytes (skipn row_bytes x)
+  end.
+Definition tiff_canonical_b (bpc : N) (n : nat) (row : bytes) : bool :=
+  list_eqb N.eqb (tiff_pack bpc (tiff_samples bpc n row)) row.
+Fixpoint tiff_canonical_rows_b (rows : nat) (bpc : N) (n row_bytes : nat) (x : bytes) : bool :=
+  match rows with
+  | O => true
+  | S k => tiff_canonical_b bpc n (firstn row_bytes x) && tiff_canonical_rows_b k bpc n row_bytes (skipn row_bytes x)
+  end.
+
 (** * §7.4.4 LZWDecode: the encoder *)
 Module PM := PositiveMap.
 Definition key (w k : N) : positive := N.succ_pos (w * 256 + k).
